@@ -1,5 +1,5 @@
 #!/usr/bin/python3
-"""Apply a seeded change to /repo, run checks against it, undo it.  usage: tools/mutant.py <patch.diff> [--checks C01,C02] [--tier quick]
+"""Apply a seeded change to /repo, run checks against it, undo it.  usage: tools/mutant.py <patch.diff> [--checks C01,C02] [--tier quick] [--repo <scratch worktree>]
 Evidence of these runs goes to .work/evidence-alt (VF_SCRATCH=1), never to evidence/."""
 import os, subprocess, sys, time
 V = os.path.dirname(os.path.dirname(os.path.abspath(__file__)))
@@ -10,19 +10,22 @@ def main():
     patch = os.path.abspath(sys.argv[1])
     checks = ALL
     tier = "quick"
+    repo = "/repo"
     a = sys.argv[2:]
     for i, x in enumerate(a):
         if x == "--checks": checks = a[i + 1].split(",")
         if x == "--tier": tier = a[i + 1]
-    st = sh("git -C /repo status --porcelain --untracked-files=no").stdout.strip()
+        if x == "--repo": repo = a[i + 1]      # a scratch worktree instead of /repo (checks then run with VF_REPO=<dir>)
+    st = sh("git -C %s status --porcelain --untracked-files=no" % repo).stdout.strip()
     if st:
-        print("refusing: /repo has local changes:\n" + st); return 2
-    r = sh("git -C /repo apply --whitespace=nowarn %s" % patch)
+        print("refusing: repo has local changes:\n" + st); return 2
+    r = sh("git -C %s apply --whitespace=nowarn %s" % (repo, patch))
     if r.returncode != 0:
         print("patch does not apply:\n" + r.stdout); return 2
     caught = {}
     try:
         env = dict(os.environ, VF_SCRATCH="1")
+        if repo != "/repo": env["VF_REPO"] = repo
         for c in checks:
             t = time.time()
             r = sh("./check %s --tier %s" % (c, tier), cwd=V, env=env)
@@ -35,9 +38,9 @@ def main():
                 print("    " + l[:230])
             if viol: caught[c] = len(viol)
     finally:
-        sh("git -C /repo apply -R --whitespace=nowarn %s" % patch)
-        sh("git -C /repo checkout -- .")
-        left = sh("git -C /repo status --porcelain").stdout.strip()
+        sh("git -C %s apply -R --whitespace=nowarn %s" % (repo, patch))
+        sh("git -C %s checkout -- ." % repo)
+        left = sh("git -C %s status --porcelain" % repo).stdout.strip()
         if left:
             print("WARNING: /repo not clean after undo:\n" + left)
     print("CAUGHT BY:", ", ".join(sorted(caught)) or "nothing")
